@@ -351,10 +351,12 @@ where
                                     }
                                 }
 
+                                // a range that ends before it starts selects nothing
+                                let count = usize::try_from(i64::from(*end) - i64::from(*start) + 1).unwrap_or(0);
                                 top_level_con_items
                                     .iter()
                                     .skip(*start as usize)
-                                    .take((end - start) as usize + 1)
+                                    .take(count)
                                     .map(usize::clone)
                                     .for_each(|i| items.push(i));
                             }
